@@ -221,6 +221,26 @@ def c02(tier, rng):
                             continue
                         out.append(stream_scn('C02', '%s %s/%s n=%d m=%d' % (kind, cp, hp, n, m), kind, cp, hp, n, m,
                                               ser=bool((n + m) % 2)))
+    # large distinct messages in bursts: several in flight between sender, writer, transport and a slow consumer
+    for kind in ('bidi', 'ss', 'cs'):
+        for size in ([1500, 8192] if tier == 'quick' else [1100, 1500, 4096, 8192, 65536]):
+            for cnt in ([5, 40] if tier == 'quick' else [3, 10, 40, 200]):
+                b = B('C02', '%s burst of %d messages of %d bytes' % (kind, cnt, size), ser=bool(cnt % 3))
+                if kind == 'cs':      # the caller bursts, the handler reads late
+                    b.step('sopen', c=1, kind=kind, hp=[])
+                    for i in range(cnt):
+                        b.step('send', c=1, pay=pay(rng, 'x', size), nw=True)
+                    b.step('close', c=1)
+                    b.step('hops', c=1, hp=[dict(o='drain'), dict(o='send', pay=pay(rng, 'r', size)), ret()])
+                    b.step('recv', c=1, n=2)
+                else:                 # the handler bursts, the caller reads late
+                    hp = ([dict(o='recv')] if kind == 'ss' else []) + [dict(o='send', pay=pay(rng, 'y', size)) for _ in range(cnt)] + [dict(o='drain'), ret()]
+                    b.step('sopen', c=1, kind=kind, hp=hp)
+                    b.step('send', c=1, pay=pay(rng, 'x', size))
+                    b.step('close', c=1)
+                    b.step('recv', c=1, n=cnt + 1)
+                b.step('trl', c=1)
+                out.append(b.q().done())
     # several streams multiplexed on one connection
     for k in ([2, 5] if tier == 'quick' else [2, 3, 8, 16, 32]):
         for rep in range(2 if tier == 'quick' else 6):
